@@ -4,6 +4,7 @@ import vcheck
 PROP = "C04"
 
 TRUSTED = [
+    "go2coq translator (harness/cmd/go2coq, semantics coq/lib/GoSem.v): props/C04/coq/Gen.v is regenerated from the Go source of seq.LessOrEqual, seq.Less, seq.PackDocPos, seq.DocPos.Unpack, storeapi docsStream.calcChunkSize on every run; supported subset: integer/boolean expressions over int, int64, uint64, uint32, uint8 and named integer types with explicit wrap-around, truncated signed division, checked division/indexing/slicing/shift counts (Panic), if/else with early return, local assignments, tuples, calls between translated functions, min/max/len, numeric struct fields, fuelled for-loops, range loops as folds; anything else is rejected (red gate). externs: none; logger.Panic = panic, logger.Debug = no effect on the result; conf.MaxFetchSizeBytes is a parameter of the generated calcChunkSize; doc bodies enter calcChunkSize as their lengths. Validated on every run by the gen-* correspondence classes (real function vs generated definition on boundary and random arguments)",
     "Coq 8.16.1 kernel (coqc), vm_compute for case evaluation; no native_compute",
     "hand-written model props/C04/coq/Model.v of docsStream.batchLoader/calcChunkSize, doFetch framing, "
     "Fetcher.FetchDocs/sortIDs/groupIDsByFraction/fetchDocsAsync, Info.IsIntersecting (+ distribution, bytewise "
